@@ -34,7 +34,9 @@ EXPLANATION = (
     'and replaces exactly raw[start:end].  R4: a node is recorded as modified/to-sort only where its argument list is changed, once, and only '
     'Array/Function nodes; sorting permutes only the StringNode arguments; every removal and candidate choice passes affects_no_other_targets.  '
     'R5: every StringNode built from a Python value outside the parser switches the escape decoding off or pre-encodes the value.  '
-    'Does NOT decide that the dataflow DAG selects the right node, nor add/remove round trips, nor printing of statements other than expressions.')
+    'R6: the pattern process_default_options builds per key is <start anchor or nothing> + key + `=`..., and every function that applies it '
+    '(followed from rewriter_func_kwargs and the remove_regex dispatch through the callback helper) uses re.match/fullmatch or a ^-anchored search.  '
+    'Does NOT decide whether option keys need regex escaping, nor that the dataflow DAG selects the right node, nor add/remove round trips, nor printing of statements other than expressions.')
 ASSUMPTIONS = ['str.translate, str.splitlines, str.split and codecs unicode_escape behave as documented in the Python library reference',
                'BaseNode.accept dispatches to visit_<ClassName> of the visitor (checked as an anchor)',
                '+ on int/str/list/dict, * on int, and/or are associative in the Meson language (Syntax.md); a+(b-c) == (a+b)-c on integers']
@@ -549,4 +551,5 @@ RULES = [
     Rule('C17.R3', 'splice discipline: descending order, offsets, line table vs lexer line terminators', SP.r3),
     Rule('C17.R4', 'bookkeeping: modified/to-sort nodes, sorting, affects_no_other_targets guards', SP.r4),
     Rule('C17.R5', 'StringNode from a raw value switches escape decoding off', r5),
+    Rule('C17.R6', 'default-options removal pattern is key-delimited and applied start-anchored', SP.r6),
 ]
